@@ -101,6 +101,9 @@ fn main() {
             continue;
         }
         let Ok(built) = build_program::<B>(prog) else {
+            // recorded so that the dev/release comparison can tell "not built in this profile"
+            // (e.g. a debug assertion of the builder) from a differing runner outcome
+            outcomes.push(format!("{idx}:build:rejected"));
             sh.bump("programs_rejected_by_builder");
             continue;
         };
